@@ -30,7 +30,7 @@ Proof. exact ExnProofs.machine_refines_structured. Qed.
 Print Assumptions exn_machine_refines_structured.
 
 Example exn_machine_refines_structured_nonvacuous :
-  depth st_init + nesting (PTry (PSeq (PTry (PThrow 0 1) [1] (PTick 1)) (PTick 2)) [0] (PThrow 2 3)) <= exc_max_depth
+  depth st_init + nesting (PTry (PSeq (PTry (PThrow 1 0) [10] (PTick 1)) (PTick 2)) [0] (PThrow 20 3)) <= exc_max_depth
   /\ depth (MS None 0 [1; 0] true) + nesting (nest (exc_max_depth - 2) (PThrow 0 1)) <= exc_max_depth.
 Proof. split; apply PeanoNat.Nat.leb_le; vm_compute; reflexivity. Qed.
 
@@ -47,7 +47,7 @@ Print Assumptions exn_whole_program.
 
 Example exn_whole_program_nonvacuous :
   nesting (nest exc_max_depth (PThrow 0 1)) <= exc_max_depth
-  /\ snd (ref_run 0 (PTry (PThrow 0 1) [1] PSkip)) = RRaised 0 1.
+  /\ snd (ref_run 0 (PTry (PThrow 0 1) [10] PSkip)) = RRaised 0 1.
 Proof. split; [apply PeanoNat.Nat.leb_le; vm_compute; reflexivity | reflexivity]. Qed.
 
 (* A handled exception never fires again in an enclosing block: a try whose body ends normally
@@ -85,17 +85,18 @@ Proof. exact ExnProofs.machine_follows_eval. Qed.
 Print Assumptions exn_machine_follows_eval.
 
 Example exn_machine_follows_eval_nonvacuous :
-  depth st_init + nesting (PTry (PTry (PThrow 0 5) [1] (PTick 1)) [0; 2] (PTick 2)) <= exc_max_depth /\
-  eval (depth st_init) (PTry (PTry (PThrow 0 5) [1] (PTick 1)) [0; 2] (PTick 2)) [EHandler 0 5 0; ETick 2 0] RNormal.
+  depth st_init + nesting (PTry (PTry (PThrow 2 5) [10] (PTick 1)) [0; 20] (PTick 2)) <= exc_max_depth /\
+  eval (depth st_init) (PTry (PTry (PThrow 2 5) [10] (PTick 1)) [0; 20] (PTick 2)) [EHandler 2 5 0; ETick 2 0] RNormal.
 Proof. split; [apply PeanoNat.Nat.leb_le; vm_compute; reflexivity | apply ExnProofs.eval_iff_ref_run; reflexivity]. Qed.
 
 (* "A handler runs if and only if an exception raised in its own try body was not already handled
-   by an inner block and matches its filter (an empty filter matches everything)"; when it runs it
+   by an inner block and matches its filter (an empty filter matches everything)"; accepts fs o =
+   the filter is empty or one of its entries is `eq` to o (same kind); when it runs it
    is entered once, with the escaped exception bound, and the block ends as the handler ends. *)
 Theorem exn_handler_runs_iff : forall d b fs h t r,
   eval d (PTry b fs h) t r ->
   forall t1 r1, eval (S d) b t1 r1 ->
-  ((exists k m, r1 = RRaised k m /\ (fs = [] \/ In k fs)) <->
+  ((exists k m, r1 = RRaised k m /\ accepts fs k) <->
    (exists k m t2, t = t1 ++ EHandler k m d :: t2)) /\
   (forall k m t2, t = t1 ++ EHandler k m d :: t2 ->
      r1 = RRaised k m /\ exists r2, eval d h t2 r2 /\ r = r2).
@@ -103,8 +104,8 @@ Proof. exact ExnProofs.handler_runs_iff. Qed.
 Print Assumptions exn_handler_runs_iff.
 
 Example exn_handler_runs_iff_nonvacuous :
-  eval 0 (PTry (PThrow 1 7) [0; 1] (PTick 3)) [EHandler 1 7 0; ETick 3 0] RNormal /\
-  eval 1 (PThrow 1 7) [] (RRaised 1 7).
+  eval 0 (PTry (PThrow 11 7) [0; 10] (PTick 3)) [EHandler 11 7 0; ETick 3 0] RNormal /\
+  eval 1 (PThrow 11 7) [] (RRaised 11 7).
 Proof. split; apply ExnProofs.eval_iff_ref_run; reflexivity. Qed.
 
 (* "A non-matching exception continues to the nearest enclosing matching handler": p raises k inside
@@ -113,8 +114,8 @@ Proof. split; apply ExnProofs.eval_iff_ref_run; reflexivity. Qed.
 Theorem exn_nearest_matching_handler : forall pre fs h p st t1 k m,
   depth st + nesting (chain (pre ++ [(fs, h)]) p) <= exc_max_depth ->
   ref_run (S (length pre + depth st)) p = (t1, RRaised k m) ->
-  Forall (fun lv => fst lv <> [] /\ ~ In k (fst lv)) pre ->
-  (fs = [] \/ In k fs) ->
+  Forall (fun lv => rejects (fst lv) k) pre ->
+  accepts fs k ->
   let '(tr, r, st') := mach (chain (pre ++ [(fs, h)]) p) st in
   let '(t2, r2) := ref_run (depth st) h in
   tr = t1 ++ EHandler k m (depth st) :: t2 /\ depth st' = depth st /\
@@ -123,28 +124,42 @@ Proof. exact ExnProofs.machine_nearest_matching_handler. Qed.
 Print Assumptions exn_nearest_matching_handler.
 
 Example exn_nearest_matching_handler_nonvacuous :
-  depth st_init + nesting (chain ([([1], PTick 1); ([2; 3], PTick 2)] ++ [([0], PTick 3)]) (PThrow 0 9)) <= exc_max_depth /\
-  ref_run (S (length [([1], PTick 1); ([2; 3], PTick 2)] + depth st_init)) (PThrow 0 9) = ([], RRaised 0 9) /\
-  Forall (fun lv : list nat * prog => fst lv <> [] /\ ~ In 0 (fst lv)) [([1], PTick 1); ([2; 3], PTick 2)].
+  depth st_init + nesting (chain ([([10], PTick 1); ([20; 31], PTick 2)] ++ [([1], PTick 3)]) (PThrow 0 9)) <= exc_max_depth /\
+  ref_run (S (length [([10], PTick 1); ([20; 31], PTick 2)] + depth st_init)) (PThrow 0 9) = ([], RRaised 0 9) /\
+  Forall (fun lv : list nat * prog => rejects (fst lv) 0) [([10], PTick 1); ([20; 31], PTick 2)].
 Proof.
   split; [apply PeanoNat.Nat.leb_le; vm_compute; reflexivity|]. split; [reflexivity|].
-  repeat constructor; cbn; try discriminate; intuition discriminate.
+  repeat constructor; cbn; try discriminate; intros f Hf; intuition (subst; discriminate).
 Qed.
 
 (* "... and one that nobody handles terminates the program with a failure status and a diagnostic" *)
 Theorem exn_nobody_matches_dies : forall pre p t1 k m,
   nesting (chain pre p) <= exc_max_depth ->
   ref_run (length pre) p = (t1, RRaised k m) ->
-  Forall (fun lv => fst lv <> [] /\ ~ In k (fst lv)) pre ->
+  Forall (fun lv => rejects (fst lv) k) pre ->
   let '(tr, r, st') := mach (chain pre p) st_init in
   tr = t1 /\ r = MDied (Some k) m /\ depth st' = 0.
 Proof. exact ExnProofs.machine_nobody_matches. Qed.
 Print Assumptions exn_nobody_matches_dies.
 
 Example exn_nobody_matches_dies_nonvacuous :
-  nesting (chain [([1], PTick 1); ([2; 3], PTick 2)] (PSeq (PTick 5) (PThrow 0 9))) <= exc_max_depth /\
-  ref_run (length [([1], PTick 1); ([2; 3], PTick 2)]) (PSeq (PTick 5) (PThrow 0 9)) = ([ETick 5 2], RRaised 0 9).
+  nesting (chain [([10], PTick 1); ([20; 31], PTick 2)] (PSeq (PTick 5) (PThrow 0 9))) <= exc_max_depth /\
+  ref_run (length [([10], PTick 1); ([20; 31], PTick 2)]) (PSeq (PTick 5) (PThrow 0 9)) = ([ETick 5 2], RRaised 0 9).
 Proof. split; [apply PeanoNat.Nat.leb_le; vm_compute; reflexivity | reflexivity]. Qed.
+
+(* "The object bound in the handler is the one that was thrown" — by IDENTITY: also when an object
+   that is `eq` to it (o1, same kind as o2 for instance) was thrown and handled just before and is
+   still held in the record, with any messages (0 = the empty format). *)
+Theorem exn_bound_object_is_thrown_identity : forall o1 o2 m1 m2 fs,
+  accepts fs o2 ->
+  fst (mach (PSeq (PTry (PThrow o1 m1) [] PSkip) (PTry (PThrow o2 m2) fs PSkip)) st_init)
+  = ([EHandler o1 m1 0; EHandler o2 m2 0], MNormal).
+Proof. exact ExnProofs.bound_object_is_thrown_identity. Qed.
+Print Assumptions exn_bound_object_is_thrown_identity.
+
+Example exn_bound_object_is_thrown_identity_nonvacuous :
+  accepts [0] 1 /\ 0 <> 1 /\ kind_of 0 = kind_of 1.
+Proof. split; [right; exists 0; split; [now left | reflexivity] | split; [discriminate | reflexivity]]. Qed.
 
 (* The nesting bound of the theorems is the real one: one more try aborts. *)
 Theorem exn_overflow_aborts : forall b fs h st,
@@ -179,7 +194,7 @@ Example exn_foreach_walk_agrees_on_sets_nonvacuous :
 Proof. split; [repeat constructor; cbn; intuition discriminate | split; [discriminate | apply le_n]]. Qed.
 
 Theorem exn_foreach_walk_refuted : forall fuel,
-  foreach_matches fuel [0; 0] (hd_error [0; 0]) 1 = None.
+  foreach_matches fuel [0; 0] (hd_error [0; 0]) 10 = None.
 Proof. exact ExnProofs.foreach_diverges_on_duplicate. Qed.
 Print Assumptions exn_foreach_walk_refuted.
 
